@@ -229,4 +229,36 @@ def jobs(prog, tier):
         js.append(('ss::tcp users[N=%d,%s]' % (N, kind), make_ss_tcp_users_job(N, kind), 900))
     for (N, kind) in ((16, 'Aes128Gcm'), (32, 'ChaCha20Poly1305'), (16, 'Aead2022Blake3Aes128Gcm'), (32, 'Aead2022Blake3ChaCha20Poly1305')):
         js.append(('ss::tcp single key[N=%d,%s]' % (N, kind), make_ss_tcp_psk_job(N, kind), 900))
+    js.append(('vmess server unregistered user[Auth,Empty]', make_vmess_job('Auth', 'Empty'), 900))
+    js.append(('vmess server unregistered user[Plain,Empty]', make_vmess_job('Plain', 'Empty'), 900))
     return js
+
+
+def make_vmess_job(chunk, padding):
+    """VMess server from its initial state on an arbitrary input; the log holds one complete request sealed under a user id that
+    is NOT registered (differs from the registered command key in at least one bit): no item may ever reach the relay.  The auth-id
+    block cipher, CRC32 and FNV are arbitrary functions (the attacker may be lucky there); the sealed header is not forgeable."""
+    def job(ctx):
+        from . import c04
+        prog = ctx.prog
+        ex = c04.vmess_server_exec(ctx, 'attack')
+        registered = z3.Array('cmdkey0', BV64, BV8)
+        outsider = z3.Array('outsider_cmdkey', BV64, BV8)
+        req = wire.vmess_request(outsider, 'Aes128Gcm', chunk, padding, 'TCP', 1, name='outsider')
+        fs = prog.find_impl_fn('ServerAeadCodec', 'decode', trait='Decoder', crate='octo-squirrel-server')
+        codec = Agg('struct', (List((Arr(registered, 'u8', 16),)), Enum(bv64(0), {}, 'DecodeState'), Enum(bv64(0), {}, 'EncodeState'), (F, 'bool')), 'ServerAeadCodec')
+        A, cA = symbuf('src')
+        pcs = [cA] + req.constraints + [z3.Or(*[z3.Select(registered, bv64(i)) != z3.Select(outsider, bv64(i)) for i in range(16)])]
+        ex.inputs = {'src': A}
+        results = c05.drive(ex, fs, [Ref('#self'), Ref('#src')], {'#self': codec, '#src': A}, pcs, {'sealed': list(req.entries)}, 4, c04.inbound_item, nseg=1)
+        nerr = 0
+        for p, rel, end in results:
+            ctx.absorb(ex, [p])
+            if end == 'err':
+                nerr += 1
+            if p.status != 'return':
+                continue
+            ctx.prove(ex, p, T if not rel else F, 'the VMess server yields a connect/relay item for a peer whose user id is not registered', fs.name + '@item')
+        ctx.out.vacuity = [('some path refuses the input', nerr > 0), ('some path gets past the auth id', any(op[0] in ('open', 'open-fail') for p, _r, _e in results for op in p.ghost.get('ideal_ops', [])))]
+        ctx.out.samples.append({'decoder': 'vmess::ServerAeadCodec::decode[Init]', 'log_entries': len(req.entries), 'runs': len(results)})
+    return job
